@@ -28,6 +28,10 @@ import WtfModel.Gen.Lru
   text of the same struct, which carries every field; `EngineReadsOnly` then also says that the engine treats
   all NaNs alike (`b > 0` is false for each of them).  The Marshal-error branch used to keep only query and
   limit: `old_fallback_breaks_transparency` shows what that did.
+
+  Continued in Props/C05b.lean: there `E.enc = hash ∘ (modelled text of the key struct)` and `Injective E.enc` is replaced
+  by `hash` injective + `FloatFmtOK` (+ `GoTextOK` for NaN / ±Inf requests), the injectivity of the JSON text on the key
+  view being a theorem (`key_text_injective`, `enc_separates`, `transparent_keyed`, `no_sharing_keyed`).
 -/
 namespace Wtf.C05
 open Wtf Wtf.CacheLayer
